@@ -24,6 +24,8 @@ HARNESSES = [
 from hist_spec import HH
 from seqs import seqs
 HARNESSES += [HH(x, conc=True) for x in seqs('absBR', 3, minlen=2) if ('b' in x or 'B' in x)] + [HH(x, conc=True, tiers=('thorough',)) for x in seqs('absBR', 4, minlen=4) if ('b' in x or 'B' in x) and 's' in x]
+# worker order: 'L' lets a pool worker take the NEWEST pending hand-off first (a reader that was wrongly redirected past a queued barrier then runs before it)
+HARNESSES += [HH(x, conc=True) for x in seqs('abL', 4, minlen=2) if 'b' in x and 'L' in x and not x.startswith('L') and 'LL' not in x and len(x) <= 3] + [HH(x, conc=True) for x in ('baLa', 'abaL', 'bsaL', 'baaL', 'bbaL', 'baLb')]
 # dispatch_queue_set_width on a busy queue (op Z): the change is a queued barrier executed inside a drain that has already started; reader / barrier bookkeeping afterwards must use the new width
 _zs = [x for x in seqs('abZsR', 4, minlen=2) if x.count('Z') == 1 and not x.endswith('Z')]
 _zq = [x for x in _zs if len(x) <= 3] + ['aZab', 'aZaRb', 'aZsb', 'abZa', 'aZbs']
